@@ -109,6 +109,7 @@ def _round_score(bits):
 
 def canon_vs_model(op, s):
     """what is compared between the server and the model"""
+    s = re.sub(r" pub=(same|diff)", "", s)
     if "total=" in s and " res=" in s:
         s = re.sub(r" ties=\d", "", s)
         s = re.sub(r"(?<=[=;])(\d+)~(\d+|\*)~", lambda m: m.group(1) + "~*~", s)
@@ -193,6 +194,13 @@ def oracle_c10(case):
         for item in re.findall(r"\d+~0~([^~;\s]*)~([^~;\s]*)", r) if op in ("q", "bq") else []:
             if item != ("-", "-"):
                 fails.append(("c10-not-found-carries-data", i, "`%s`: a not-found answer carries data: %s" % (l, r)))
+    # a client filter must not be evaluated against the server-owned keys (they "cannot be seen"): where the model - which
+    # agrees with the server on this answer - says a client blind to those keys would have got another answer
+    for i, (l, r, m) in enumerate(zip(raw, impl, case.get("model", []))):
+        if "pub=diff" in m and "ties=1" not in m and r.startswith("ok") and compare(r, m, op_of(l)):
+            fails.append(("c10-reserved-key-filter", i, "`%s` answers `%s`: the client filter was evaluated against server-owned "
+                          "metadata keys (a client that cannot see them would have got a different answer)" % (l, r)))
+            break
     # non-interference: what a tenant observes is what it observes alone
     for who, (idx, alone) in proj.items():
         for j, i in enumerate(idx):
